@@ -232,6 +232,10 @@ NATIVE_TWINS = {
             'en passant on all 14 adjacent file pairs x 2 colours; five standard perft positions (start 1..5, Kiwipete 1..3, position 3 1..4, position 4 1..3, position 5 1..3): leaf counts of generate_moves + apply + undo against the published figures, board restored'),
     'C02': ('c01_perft_suite', ['leaf_counts_do_not_depend_on_what_the_generator_was_asked_before'],
             'one generator reused across five standard perft positions, depths 1..3, two rounds: leaf counts equal the published figures whatever was asked before'),
+    'C03': ('c03_successor_model', None, 'SUCC'),
+    'C04': ('c03_successor_model', None, 'SUCC'),
+    'C12': ('c03_successor_model', None, 'SUCC'),
+    'C16': ('c03_successor_model', None, 'SUCC'),
     'C05': ('c05_key_model', None,
             '40 pseudo-random legal walks x up to 60 plies (start position and a castling-rich position), every third ply undone and replayed: key == key of the same position set up directly; undo restores the key'),
     'C06': ('c06_annotation_model', None,
@@ -253,10 +257,18 @@ NATIVE_TWINS = {
 }
 
 
+_SUCC_BOUND = ('70 pseudo-random legal walks x up to 80 plies from 7 starting positions (start, corner captures, castling-rich, promotion-rich, '
+               'en-passant-rich, two openings): EVERY legal move of every visited position is applied and compared field by field with the '
+               'rules\' successor (placement, rights, en-passant target, both counters, turn), undone and compared with the state before; '
+               'representation invariants in every visited state')
+
+
 def run_native_twin(repo, pid):
     """BOUNDED stand-in, never counted as proved: a differential / model-based integration test against the
     crate's PUBLIC API, run in release mode on a scratch copy of the tree under check."""
     name, tests, bound = NATIVE_TWINS[pid]
+    if bound == 'SUCC':
+        bound = _SUCC_BOUND
     tmp = tempfile.mkdtemp(prefix='vx_native_')
     try:
         dst = os.path.join(tmp, 'repo')
@@ -305,7 +317,8 @@ def fallback_bounded(pid):
             viol.append(_viol(pid, 'native-bounded', NATIVE_TWINS[pid][0] + ' (public API)', 'test-assertion', ','.join(k['failed_harnesses']) or 'twin',
                               k['tail'], {'has_input': True, 'checker_cmd': k['cmd'], 'failed_checks': k['failed_checks'],
                                           'concrete_playback': k['failed_checks'], 'bounded': k['bound']}))
-        if viol or pid != 'C18':
+        # properties that also have a (slower, symbolic) Kani twin fall through to it when the native twin passes
+        if viol or pid not in ('C18', 'C03', 'C04', 'C12', 'C16'):
             return {'kani': k, 'violations': viol}
     if pid == 'C18':
         k = run_kani_moves(dr.REPO, ['material_score_is_antisymmetric'], module='evaluate')
